@@ -297,7 +297,7 @@ func (sc *simRoutesScenario) attrs(b *simBot, pfx, variant int) ([]bgp.PathAttri
 		attrs = append(attrs, bgp.NewPathAttributeLocalPref(100))
 	}
 	if variant == 1 {
-		attrs = append(attrs, bgp.NewPathAttributeCommunities([]uint32{65000<<16 | 77}))
+		attrs = append(attrs, bgp.NewPathAttributeCommunities([]uint32{65000<<16 | 77, 65000<<16 | 88}))
 	}
 	if variant == 4 && b != nil && !ebgp {
 		// a reflected route that has come back: ORIGINATOR_ID is this speaker's router id (input loop,
